@@ -1668,7 +1668,8 @@ class Bits:
             width_excluding_offset_and_final_group = width - offset_width - group_chars1 - group_chars2 - len(
                 format_sep) * bool(group_chars2)
             width_excluding_offset_and_final_group = max(width_excluding_offset_and_final_group, 0)
-            groups_per_line = 1 + width_excluding_offset_and_final_group // total_group_chars
+            # A group can take no space at all (e.g. 'pad' with an empty separator).
+            groups_per_line = 1 + width_excluding_offset_and_final_group // max(total_group_chars, 1)
             max_bits_per_line = groups_per_line * bits_per_group  # Number of bits represented on each line
         else:
             assert bits_per_group == 0  # Don't divide into groups
